@@ -8,7 +8,7 @@ import copy
 import itertools
 import re
 
-from ..common import budget_names_limit, canon, load_impl
+from ..common import HANG, ImplHang, budget_names_limit, canon, cpu_watchdog, load_impl
 from ..engine.shard import Acc, Family, split
 from ..engine.tape import explore
 from ..gen import ast, chains
@@ -149,9 +149,12 @@ def run_impl(model, prefix, limit, fetch=None):
     if fetch is not None:
         options['fetchFn'] = fetch
     try:
-        res = ('ok', canon(bs.execute_script(model, options)))
+        with cpu_watchdog():
+            res = ('ok', canon(bs.execute_script(model, options)))
     except bs.BareScriptRuntimeError as exc:
         res = ('raise', 'BareScriptRuntimeError', str(exc))
+    except ImplHang:
+        return {'result': HANG, 'logs': logs[:50], 'x': None, 'count': options.get('statementCount'), 'points': tape.points[:50]}
     except Exception as exc:  # pylint: disable=broad-exception-caught
         res = ('raise', type(exc).__name__, str(exc))
     return {'result': res, 'logs': logs, 'x': canon(glob.get('x')), 'count': options.get('statementCount'), 'points': tape.points}
@@ -173,9 +176,12 @@ def run_impl_reused_options(model, prefix, limit, fetch=None):
         options['globals'] = glob
         options['logFn'] = logs.append
         try:
-            res = ('ok', canon(bs.execute_script(model, options)))
+            with cpu_watchdog():
+                res = ('ok', canon(bs.execute_script(model, options)))
         except bs.BareScriptRuntimeError as exc:
             res = ('raise', 'BareScriptRuntimeError', str(exc))
+        except ImplHang:
+            return {'result': HANG, 'logs': logs[:50], 'x': None, 'count': options.get('statementCount'), 'points': tape.points[:50]}
         except Exception as exc:  # pylint: disable=broad-exception-caught
             res = ('raise', type(exc).__name__, str(exc))
         out = {'result': res, 'logs': logs, 'x': canon(glob.get('x')), 'count': options.get('statementCount'), 'points': tape.points}
@@ -454,6 +460,16 @@ CALLPATHS = [
     ('filter-variables-grouped-call', f"function keep(a):\n    systemLog('k' + a)\n    return a > 1\nendfunction\ndd = dataFilter({DATA}, '(keep(a))', objectNew('vv', 1))\nsystemLog('end')\n"),
     ('calc-variables-nested-call', f"function weight(a):\n    systemLog('w' + a)\n    return a * 2\nendfunction\ndd = dataCalculatedField({DATA}, 'b', 'weight(a) > kk', objectNew('kk', 3))\nsystemLog('end')\n"),
     ('join-variables-grouped-call', f"function key(a):\n    systemLog('j' + a)\n    return a\nendfunction\ndd = dataJoin({DATA}, {DATA}, '(key(a))', null, false, objectNew('vv', 1))\nsystemLog('end')\n"),
+] + [
+    # a variables argument that is EMPTY or only restates an existing global: the options copy the helper makes then equals the caller's options
+    (f'{kind}-variables-{vname}-{dname}', src)
+    for dname, data in (('3rows', DATA), ('1row', "arrayNew(objectNew('a', 2))"))
+    for vname, vexpr in (('empty', 'objectNew()'), ('restated', "objectNew('x', x)"), ('null', 'null'))
+    for kind, src in (
+        ('filter', f"function keep(a):\n    systemLog('k' + a)\n    return a > 1\nendfunction\ndd = dataFilter({data}, 'keep(a)', {vexpr})\nsystemLog('end')\n"),
+        ('calc', f"function dbl(a):\n    systemLog('d' + a)\n    return a * 2\nendfunction\ndd = dataCalculatedField({data}, 'b', 'dbl(a)', {vexpr})\nsystemLog('end')\n"),
+        ('join', f"function key(a):\n    systemLog('j' + a)\n    return a\nendfunction\ndd = dataJoin({data}, {data}, 'key(a)', null, false, {vexpr})\nsystemLog('end')\n"))
+] + [
     ('function-in-if-condition', "function chk(n):\n    systemLog('c' + n)\n    return n > 1\nendfunction\nif chk(1):\n    systemLog('a')\nelif chk(2):\n    systemLog('b')\nelse:\n    systemLog('c')\nendif\nsystemLog('end')\n"),
     ('function-in-while-condition', "function more():\n    nn = systemGlobalGet('nn') + 1\n    systemGlobalSet('nn', nn)\n    systemLog('m' + nn)\n    return nn < 3\nendfunction\nnn = 0\nwhile more():\n    systemLog('body')\nendwhile\nsystemLog('end')\n"),
     ('function-in-for-values-and-jumpif', "function vals():\n    systemLog('v')\n    return arrayNew(1, 2)\nendfunction\nfunction yes():\n    systemLog('y')\n    return true\nendfunction\nfor w in vals():\n    systemLog('w' + w)\nendfor\njumpif (yes()) done\nsystemLog('skipped')\ndone:\nsystemLog('end')\n"),
